@@ -16,12 +16,17 @@ NUMS = ['0', '-0', '1', '-1', '+5', '.5', '-.25', '5.', '007', '15', '15.5', '10
 LETTERS = list('XYZEFIJRSPT') + list('xyzeijr') + ['A', 'Q']
 
 
-def rnd_cmd(rng):
+BIG = ('100000', '1234567.891', '99999999', '1e5')
+
+
+def rnd_cmd(rng, big=True):
     code = rng.choice(CODES)
     ws = []
     for _ in range(rng.randint(0, 6)):
         l = rng.choice(LETTERS)
         n = rng.choice(NUMS)
+        if not big and n in BIG:
+            n = rng.choice(['1000', '1234.891', '9999', '1e5'])      # see malformed_program
         if code.upper().lstrip('G0') in ('2', '3') or code.upper() in ('G2', 'G3', 'G02', 'G03'):
             n = rng.choice(['0', '-0', '1', '-1', '+5', '.5', '-.25', '5.', '007', '15', '15.5', '100', '0.00001', '12.5.3', ''])
         ws.append(rng.choice(['%s%s', '%s %s', '%s%s ']) % (l, n))
@@ -32,12 +37,14 @@ def rnd_cmd(rng):
     return s
 
 
-def malformed_program(rng):
+def malformed_program(rng, big=True):
+    """big=False: magnitudes stay below 1e4 so that binary64 cancellation (1e8 * 25.4 + 1e-6 - 1e8 * 25.4) cannot separate the implementation's
+    numbers from the exact model's by more than the comparison tolerance; the extreme magnitudes are exercised by the oracle (exceptions, shapes)"""
     evs = [('cmd', 'G28')]
     for _ in range(rng.randint(5, 40)):
         r = rng.random()
         if r < 0.8:
-            evs.append(('cmd', rnd_cmd(rng)))
+            evs.append(('cmd', rnd_cmd(rng, big)))
         elif r < 0.9:
             evs.append(('at', rng.choice(['@ExcludeRegion off', '@ExcludeRegion on', '@x', '@ExcludeRegion'])))
         else:
@@ -50,7 +57,7 @@ def malformed_program(rng):
 
 
 def correspondence(ctx):
-    extra = [malformed_program(ctx.rng) for _ in range(ctx.n(60, 1500))]
+    extra = [malformed_program(ctx.rng, big=False) for _ in range(ctx.n(60, 1500))]
     return FL.correspondence(ctx, PID, dict(junk=True), 25, 600, extra_progs=extra)
 
 
